@@ -689,7 +689,7 @@ impl<DataInterfaceType: DeduplicationDataInterface> FileDeduper<DataInterfaceTyp
             proof { assert(hs.subrange(0, hs.len() as int) =~= hs); }
 //@ loop 3
             invariant
-                cur_idx <= chunks@.len(), defrag_prevented_until <= chunks@.len(),
+                cur_idx <= chunks@.len(),
                 hs == hashes(chunks@), chunk_hashes@ == hs, chunks_ok(chunks@), deduped_blocks@.len() == chunks@.len(), answers_ok(deduped_blocks@, hs),
                 forall|i: int| 0 <= i < chunks@.len() ==> (#[trigger] chunks@[i]).data@.len() <= spec_MAX_XORB_BYTES(),
                 self.istruct(),
